@@ -1,12 +1,13 @@
 import OpenHTF.Model.AtomicFile
 import OpenHTF.Driver.Util
-/- C17 driver: `C17 <F|A> <old hex|~> <n> <chunkhex|->.. <fault> <crash j|-> # <real ops…> D:<hex|~|->`
+/- C17 driver: `C17 <F|A|As> <old hex|~> <n> <chunkhex|->.. <fault> <crash j|-> # <real ops…> D:<hex|~|->`   (As = atomic_write with filesync)
    fault := `none` | `ser:k` | `write:k` | `close` -/
 namespace OpenHTF.Driver.C17
 open OpenHTF.Driver OpenHTF.AtomicFile
 
 def showOp : FsOp → String
   | .createTemp => "create" | .append d => "app:" ++ (if d.isEmpty then "-" else hex d) | .rename => "rename" | .removeTemp => "remove"
+  | .flush => "flush" | .close => "close" | .closeFail => "closefail"
 def showDest : Option Bytes → String
   | none => "D:~" | some [] => "D:-" | some d => "D:" ++ hex d
 
@@ -27,7 +28,8 @@ def handle (ts : Toks) : String :=
       match faultOf faultT with
       | none => reply false false "parse-error"
       | some fault =>
-        let ops := if prog == "A" then atomicWrite chunks fault else outputToFile chunks fault
+        let ops := if prog == "A" then atomicWrite chunks false fault else if prog == "As" then atomicWrite chunks true fault
+                   else outputToFile chunks fault
         let ops := match crashT.toNat? with | some j => crashAfter j ops | none => ops
         let fs := applyAll { dest := old } ops
         let model := ops.map showOp ++ [showDest fs.dest]
